@@ -36,7 +36,7 @@ Explain(e) ==
 
 Init == l = 1 /\ bad = 0
 Next == /\ l <= Len(Trace)
-        /\ LET e == Trace[l] r == Explain(e) IN
+        /\ \E r \in {Explain(Trace[l])} : LET e == Trace[l] IN     \* bound once (TLC evaluates an action-level LET at every use)
              /\ Report(l, e, r)
              /\ bad' = bad + (IF r.ok THEN 0 ELSE 1)
         /\ l' = l + 1
